@@ -123,7 +123,7 @@ def init_field_values(em, cls):
                         out.setdefault(t.attr, []).append((f, n))
             if isinstance(n, ast.Call) and is_self_attr(n.func):
                 m = em.repo.lookup_method(cls, n.func.attr)
-                if m is not None and m.name.startswith('_set'):
+                if m is not None:
                     stack.append(m)
     return out
 
@@ -249,10 +249,61 @@ def rule_script_globals(em, rep, rid):
                       em.engine.loc(lit))
 
 
+def atom_interning(em):
+    """The engine's atom(name) evaluated by the checker on an empty table: -> dict(ok, why, field, func).  ok when the
+    first call creates an Atom for the name and files it in a table of the engine, a second call with the same name
+    returns that very object and leaves the table as it is, and another name gets another object."""
+    from .symex import SymEx, PathState, DictV, Const, New
+    yp = em.YP
+    at = em.repo.lookup_method(yp, 'atom')
+    if at is None:
+        raise AnalysisError('anchor vanished: YP.atom')
+    cached = getattr(em, '_atom_interning', None)
+    if cached is not None:
+        return cached
+    res = dict(ok=False, why='', field=None, func=at)
+    st = PathState()
+    for k, vals in init_field_values(em, yp).items():
+        v = vals[-1][1].value
+        if (isinstance(v, ast.Dict) and not v.keys) or (isinstance(v, ast.Call) and is_name(v.func, 'dict') and not v.args and not v.keywords):
+            st.fields[k] = DictV([])
+    sx = SymEx(em.repo, inline=lambda f: True, max_depth=4)
+    sx.max_steps = 20000
+    try:
+        first = sx.run(at, [Const('a')], st)
+        if len(first) != 1 or not isinstance(first[0][1], New) or first[0][1].cls.name != 'Atom':
+            res['why'] = 'atom(name) on an empty table does not return one new Atom (%s)' % '; '.join(repr(v) for _, v in first)[:80]
+        else:
+            s1, a1 = first[0]
+            fields = [k for k, d in s1.fields.items() if isinstance(d, DictV) and any(v is a1 for _, v in d.pairs)]
+            if len(fields) != 1:
+                res['why'] = 'the new atom is not filed in a table of the engine: a second atom(name) makes a second object'
+            else:
+                res['field'] = fields[0]
+                again = sx.run(at, [Const('a')], s1)
+                if len(again) != 1 or again[0][1] is not a1 or len(again[0][0].fields[fields[0]].pairs) != 1 \
+                        or again[0][0].fields[fields[0]].pairs[0][1] is not a1:
+                    res['why'] = 'a second atom(name) with the same name does not return the filed object unchanged'
+                else:
+                    other = sx.run(at, [Const('b')], again[0][0])
+                    if len(other) != 1 or other[0][1] is a1 or not isinstance(other[0][1], New) or \
+                            not any(v is a1 for _, v in other[0][0].fields[fields[0]].pairs):
+                        res['why'] = 'atom() of another name disturbs the filed atom'
+                    else:
+                        res['ok'] = True
+                        res['why'] = 'evaluated: atom(n) files a new Atom under n in self.%s on a miss and returns the filed object on a hit' % fields[0]
+    except AnalysisError as e:
+        res['why'] = 'cannot evaluate atom(): %s' % e
+        res['error'] = True
+    em._atom_interning = res
+    return res
+
+
 def write_effects(em):
     """{func: set of (kind, class, field)} transitive over the call graph; kind in
     'rebind' (self.f = ..), 'mutate' (self.f[..] = / self.f.append(..)), 'intern' (self.f.setdefault)"""
     direct = {}
+    interning = atom_interning(em)
     for f in em.repo.all_functions(('engine',)):
         eff = set()
         for x in own_nodes_ordered(f.node):
@@ -268,6 +319,8 @@ def write_effects(em):
             elif isinstance(x, ast.Subscript) and isinstance(x.ctx, (ast.Store, ast.Del)):
                 tgt = x.value
             if isinstance(tgt, ast.Attribute) and is_name(tgt.value, 'self') and f.cls is not None:
+                if interning['ok'] and f is interning['func'] and tgt.attr == interning['field']:
+                    kind = 'intern'     # shown by evaluation: files a new atom on a miss, never replaces one
                 eff.add((kind, f.cls.name, tgt.attr, x.lineno))
         direct[f] = eff
     total = {f: set(e) for f, e in direct.items()}
@@ -296,6 +349,7 @@ def rule_queries_read_only(em, rep, rid):
     qp = [f for f in query_path(em) if f not in dbset]
     var = em.variable_class()[0].name
     iterator_classes = {c.name for c in em.repo.all_classes(('engine',)) if '__next__' in c.methods}
+    atom_field = atom_interning(em)['field']
     n = 0
     for f in qp:
         n += 1
@@ -314,7 +368,7 @@ def rule_queries_read_only(em, rep, rid):
         bad = [e for e in eff if not (
             (e[1] == var and e[2] in ('_is_bound', '_value')) or
             (e[1] in iterator_classes) or
-            (e[0] == 'intern' and e[2] == '_atom_store'))]
+            (e[0] == 'intern' and e[2] == atom_field))]
         if bad:
             for e in sorted(bad):
                 rep.violation(rid, '%s:%s.%s' % (f.qname, e[1], e[2]), 'evaluating a query %ss %s.%s (line %d): two suspended '
@@ -927,7 +981,7 @@ def rule_constant_agreement(em, rep, rid):
     au = em.repo.lookup_method(atom, 'unify')
     if au is None:
         raise AnalysisError('anchor vanished: Atom.unify')
-    cmp_ = [x for x in own_nodes(au.node) if isinstance(x, ast.Compare) and '_name' in norm(x)]
+    cmp_ = [x for x in own_nodes(em.view(au).node) if isinstance(x, ast.Compare) and '_name' in norm(x)]
     if cmp_ and all(isinstance(c.ops[0], (ast.Eq, ast.NotEq)) for c in cmp_):
         rep.ok(rid, 'atom-unify-by-name', 'atoms unify when their names are equal (==), also across engines', au.loc(cmp_[0]))
     else:
@@ -935,13 +989,13 @@ def rule_constant_agreement(em, rep, rid):
                       'engines (or created with Atom() directly) do not unify', au.loc())
     # interning
     at = em.repo.lookup_method(yp, 'atom')
-    s = norm(at.node)
-    if 'setdefault(name' in s.replace(' ', '').replace('setdefault(name', 'setdefault(name') and '_atom_store' in s:
-        rep.ok(rid, 'atom-interning', 'atom() returns the table entry for the name', at.loc())
-    elif '_atom_store' in s and ('not in' in s or '.get(' in s):
-        rep.ok(rid, 'atom-interning', 'atom() looks the name up before creating', at.loc())
+    res = atom_interning(em)
+    if res['ok']:
+        rep.ok(rid, 'atom-interning', res['why'], at.loc())
+    elif res.get('error'):
+        raise AnalysisError(res['why'])
     else:
-        rep.violation(rid, 'atom-interning', 'atom() does not intern: two atoms of one name are two objects in one engine', at.loc())
+        rep.violation(rid, 'atom-interning', 'atom() does not intern: %s' % res['why'], at.loc())
 
 
 def rule_atoms_unify_by_name(em, rep, rid):
@@ -951,7 +1005,7 @@ def rule_atoms_unify_by_name(em, rep, rid):
     au = em.repo.lookup_method(atom, 'unify')
     if au is None:
         raise AnalysisError('anchor vanished: Atom.unify')
-    cmp_ = [x for x in own_nodes(au.node) if isinstance(x, ast.Compare) and '_name' in norm(x)]
+    cmp_ = [x for x in own_nodes(em.view(au).node) if isinstance(x, ast.Compare) and '_name' in norm(x)]
     if cmp_ and all(isinstance(c.ops[0], (ast.Eq, ast.NotEq)) for c in cmp_):
         rep.ok(rid, 'atom-unify-by-name', 'atoms unify when their names are equal (==), also across engines', au.loc(cmp_[0]))
     else:
